@@ -136,7 +136,34 @@ def o04_7(tier):
             for col, cid in enumerate(cids):
                 ctx.ensure(ctx.eq(ctx.get(m.c[cid], "pressure"), sol[col]), f"cell {cid} carries its own pressure")
         return h
+    def h_history(ctx):
+        # the pressure step is run again on the same ForSys after the interface tensions changed: the right-hand side that reaches the
+        # solver is tension x turning of the CURRENT tensions (no equation system kept from the earlier run)
+        m, fr, cycles, info, kap, tens, areas = pressure_fixture(ctx, "tri_star", 1)
+        FS = cls(ctx, "forsys.forsys", "ForSys")
+        fs = ctx.alloc(FS, frames=ctx.dict([(1, fr)]), mesh=ctx.dict(), pressure_matrices=ctx.dict(), forces=ctx.dict([(1, ctx.dict())]),
+                       pressures=ctx.dict([(1, None)]), force_matrices=ctx.dict())
+        log = []
+        if ctx.mode != "sym":
+            return
+        install_solvers(ctx, log, False)
+        for run in (0, 1):
+            if run == 1:
+                for beid, be in ctx.list_of(ctx.get(fr, "big_edges")):
+                    tens[beid] = ctx.real(f"T2_{beid}")
+                    ctx.set(be, "tension", tens[beid])
+            ctx.callm(fs, "build_pressure_matrix", when=1)
+            ctx.callm(fs, "solve_pressure", when=1, method="lagrange_pressure")
+            pm = ctx.item(ctx.get(fs, "pressure_matrices"), 1)
+            L = [ctx.list_of(r) for r in ctx.list_of(ctx.get(pm, "lhs_matrix"))]
+            internal = ctx.list_of(ctx.get(fr, "internal_big_edges"))
+            rhs = [tens[ctx.get(be, "big_edge_id")] * kap[ctx.get(be, "big_edge_id")] for be in internal]
+            b = log[-1][2]
+            n = len(L[0])
+            for i in range(n):
+                ctx.ensure(b.data[i] == sum(L[r][i] * rhs[r] for r in range(len(L))), f"run {run + 1}: b[{i}] = (L^T (current tension x turning))[{i}]")
     out = [(f"{s},k=1", mk(s, 1, False)) for s in ("tri_star", "border_fan", "tri_star_ear", "tri_star_two_ears")]
+    out.append(("tri_star,k=1,second-run-after-the-tensions-changed", h_history))
     # relabelled storage (non-contiguous cell ids, other construction order): the re-inserted zero belongs to the cell at that
     # COLUMN POSITION, whatever its id (C07)
     out += [(f"{s},k=1", mk(s, 1, False)) for s in ("tri_star_ear~v1", "tri_star_two_ears~v2", "tri_star_ear~v3")]
